@@ -361,7 +361,7 @@ def entropies(cx):
     rng = cx.rng
     dims_list = DIMS_QUICK if cx.quick else DIMS_QUICK + DIMS_MORE
     kinds = KET_KINDS + RHO_KINDS
-    reps_per = 1 if cx.quick else 3
+    reps_per = 2 if cx.quick else 6
     for di, dims in enumerate(dims_list):
         for ki, kind in enumerate(kinds):
             for rep_i in range(reps_per):
@@ -452,6 +452,12 @@ def entropies(cx):
 
                     cx.check("mutinf == S(A)+S(B)-S(AB); symmetric; invariant under local unitaries / relabelling; ket == projector",
                              p, t_mi)
+                    if not ket and D >= 3 and true_rank < D - 1:
+                        def t_mir(xq=xq, rho=rho, dims=dims, sysa=sysa, sysb=sysb, sa_arg=sa_arg, true_rank=true_rank):
+                            ref = vn_entropy(ptrace(rho, dims, sysa)) + vn_entropy(ptrace(rho, dims, sysb)) - vn_entropy(rho)
+                            return scalar_close(qu.mutinf(xq(), dims, sa_arg, rank=true_rank), ref, "mutinf(rank=)", tol=1e-8)
+
+                        cx.check("mutinf(rho, rank=true rank of rho) == mutinf(rho)", dict(p, rank=true_rank), t_mir)
                     if ket:
                         def t_es(xq=xq, rho=rho, dims=dims, sysa=sysa, sysb=sysb, sa_arg=sa_arg, thr=thr):
                             SA = vn_entropy(ptrace(rho, dims, sysa))
@@ -535,7 +541,7 @@ def negativity_driver(cx):
     rng = cx.rng
     dims_list = DIMS_QUICK if cx.quick else DIMS_QUICK + DIMS_MORE
     kinds = KET_KINDS + RHO_KINDS
-    reps_per = 1 if cx.quick else 3
+    reps_per = 2 if cx.quick else 6
     for di, dims in enumerate(dims_list):
         for ki, kind in enumerate(kinds):
             for rep_i in range(reps_per):
@@ -695,7 +701,7 @@ def distances(cx):
     rng = cx.rng
     ds = [1, 2, 3, 4, 5, 6, 8, 9, 12] if cx.quick else [1, 2, 3, 4, 5, 6, 7, 8, 9, 10, 12, 16, 18, 24, 36]
     kinds = ("ket", "ket-real", "rho-r1", "rho-low", "rho-full", "rho-diag", "rho-eig")
-    reps_per = 1 if cx.quick else 3
+    reps_per = 1 if cx.quick else 5
     for d in ds:
         for k1, k2 in itertools.product(kinds, kinds):
             for rep_i in range(reps_per):
@@ -828,7 +834,7 @@ def two_qubit(cx):
     import quimb as qu
 
     rng = cx.rng
-    ncases = 40 if cx.quick else 260
+    ncases = 40 if cx.quick else 300
     kinds = ("ket", "ket-real", "ket-product", "rho-r1", "rho-low", "rho-full", "rho-sep", "werner", "belldiag", "xstate", "cq", "bell")
     for i in range(ncases * cx.nchunks):
         if not cx.mine():
@@ -970,7 +976,7 @@ def maps_and_measurement(cx):
     import quimb as qu
 
     rng = cx.rng
-    ncases = 40 if cx.quick else 300
+    ncases = 80 if cx.quick else 500
     dims_list = [[2], [3], [2, 2], [2, 3], [3, 2], [2, 2, 2], [2, 3, 2], [1, 4], [2, 1, 2], [3, 3], [2, 2, 3], [2, 2, 2, 2], [4, 3, 3],
                  [6, 6], [5], [2, 3, 1, 2]]
     for i in range(ncases * cx.nchunks):
@@ -1064,6 +1070,22 @@ def maps_and_measurement(cx):
             return mat_close(P0, np.zeros_like(A), "projector onto an absent eigenvalue")
 
         cx.check("projector(A, eigenvalue) == orthogonal projector onto the whole eigenspace", dict(pm, eig_input=eig_input), t_proj)
+        if D >= 4 and i % 3 == 0:
+            # real symmetric observable made of two blocks (autoblock looks for the blocks)
+            h = D // 2
+            Ob = rng.normal(size=(D, D))
+            Ob[:h, h:] = 0
+            Ob = Ob + Ob.T
+            lamb = float(np.linalg.eigvalsh(Ob)[int(rng.integers(0, D))])
+
+            def t_proj_ab(Ob=Ob, lamb=lamb):
+                el, ev = np.linalg.eigh(Ob)
+                cols = ev[:, np.abs(el - lamb) < 1e-9]
+                return mat_close(qu.projector(qu.qarray(Ob), eigenvalue=lamb, autoblock=True), cols @ cols.T,
+                                 "projector(autoblock=True)", tol=1e-8)
+
+            cx.check("projector(A, eigenvalue, autoblock=True) == projector from a plain eigen-decomposition (real symmetric A)",
+                     dict(base, blocks=2), t_proj_ab)
 
         def t_meas(x=x, rho=rho, ket=ket, A=A, lam=lam, ref_proj=ref_proj, spec=spec, rep=rep, levels=levels, eig_input=eig_input, i=i):
             Aq = qu.qarray(A)
@@ -1174,7 +1196,7 @@ def decompositions(cx):
     import quimb as qu
 
     rng = cx.rng
-    ncases = 36 if cx.quick else 240
+    ncases = 90 if cx.quick else 600
     for i in range(ncases * cx.nchunks):
         if not cx.mine():
             continue
@@ -1269,7 +1291,8 @@ def decompositions(cx):
                 pre = bool(rng.integers(0, 2))
                 default_dims = bool(all(d == 2 for d in dims) and rng.integers(0, 2))
                 p = dict(i=i, fn="correlation", dims=dims, sysa=sa, sysb=sb, state=kind, rep=rep, sparse_ops=spops, sparse=str(sparse_opt),
-                         precomp=pre, default_dims=default_dims, ops_cover_all=bool(n == 2))
+                         precomp=pre, default_dims=default_dims,
+                         ops_cover_all=bool(int(np.prod(dims)) == dims[sa] * dims[sb]))
 
                 def t_corr(x=x, rho=rho, dims=dims, sa=sa, sb=sb, A=A, B=B, spops=spops, sparse_opt=sparse_opt, pre=pre, rep=rep,
                            default_dims=default_dims):
@@ -1433,6 +1456,27 @@ def decompositions(cx):
 
             cx.check("is_degenerate == number of level spacings below tol * (spectral range / d)", p, t_deg)
 
+            # spacings placed just below / above the documented threshold tol * range / d
+            d2 = int(rng.integers(4, 13))
+            tol2 = 1e-3
+            lev2 = np.linspace(0.0, 1.0, d2)
+            cs = {}
+            for q in rng.choice(np.arange(1, d2 - 2), size=min(d2 - 3, int(rng.integers(1, 4))), replace=False):
+                cs[int(q)] = float(rng.choice([0.3, 3.0]))
+            for q, c_ in cs.items():
+                lev2[q + 1] = lev2[q] + c_ * tol2 / d2 if q + 1 not in cs else lev2[q + 1]
+            lev2 = np.sort(lev2)
+
+            def t_deg2(lev2=lev2, d2=d2, tol2=tol2):
+                want = int((np.diff(lev2) < tol2 * (lev2[-1] - lev2[0]) / d2).sum())
+                got = int(qu.is_degenerate(lev2, tol=tol2))
+                if got != want:
+                    return f"is_degenerate(levels, tol={tol2}) = {got}, expected {want} (spacings {np.round(np.diff(lev2) * d2 / tol2, 2).tolist()} in units of the threshold)"
+                return None
+
+            cx.check("is_degenerate counts exactly the spacings below tol * range / d (spacings at 0.3x and 3x the threshold)",
+                     dict(i=i, fn="is_degenerate", d=d2, near=sorted(cs.values())), t_deg2)
+
             vec_kind = ("eigen", "degenerate-mix", "generic", "near")[int(rng.integers(0, 4))]
 
             def t_eig(A=A, V=V, levels=levels, d=d, vec_kind=vec_kind):
@@ -1523,7 +1567,7 @@ def sparse_inputs(cx):
 
     rng = cx.rng
     dims_list = [[2, 2], [2, 3], [2, 2, 2], [3, 4]]
-    reps = 2 if cx.quick else 8
+    reps = 3 if cx.quick else 12
     for di, dims in enumerate(dims_list):
         for r_ in range(reps):
             for inp in ("sparse-ket", "sparse-op"):
